@@ -405,12 +405,15 @@ def run_case(case, res):
                 f'rules {case["rules"]} on wicks({expr}): library kept {out_r},'
                 f' expected {mine}', tags)
             return
-        nl = len(tm.terms_of(out_r.expand())) if out_r != 0 else 0
-        nm = len(tm.terms_of(mine.expand())) if mine != 0 else 0
-        if nl != nm:
+        # no surviving term may hold a tensor in an excluded block (a term count
+        # comparison with the filtered rule-free result is not sound: terms that
+        # cancel in the rule-free sum may survive when only one of them is
+        # excluded)
+        _, still = _filter_blocks(out_r, case['rules']) if out_r != 0 else (0, 0)
+        if still:
             res.violation(
-                f'rules {case["rules"]} on wicks({expr}): library kept {nl} '
-                f'terms, block filter keeps {nm}', tags)
+                f'rules {case["rules"]} on wicks({expr}): {still} term(s) of the '
+                f'result {out_r} hold a tensor in an excluded block', tags)
 
 
 def _recheck(case, m2, out, coeff, free, summed, idx_names, sym):
